@@ -71,14 +71,15 @@ def gen_scripts(ctx, tier):
             o = r.shuffle(list(range(n)))
             lines += [net(D.CHAINED if (j + seed) % 2 else unch, n, f"c{n}{t}"), D.initial_line(o, t, r.choice(o), period=r.choice([5, 30]), genesis=-r.range(10, 900), sched=sched(r, o))]
         scripts.append((name, lines))
-    # D: one node offline during the execution: QUAL is a strict subset, indices keep a hole
-    r = rng.fork("D")
-    o = r.shuffle([0, 1, 2, 3])
-    down = r.choice([x for x in o[1:]])
-    live = [x for x in o if x != down]
-    scripts.append(("D-offline-node", [net(unch if seed % 2 else D.CHAINED, 4, "d", ph=1800),
-                    D.initial_line(o, 3, o[0], period=30, genesis=-r.range(50, 500), sched=f"down={down}"),
-                    D.reshare_line(r.shuffle(live), [], [], 2, o[0], sched=sched(r, live))]))
+    # D: one node offline during the execution: QUAL is a strict subset, indices keep a hole (each of the three nodes in turn,
+    # so that the missing index is not always the last one)
+    for down in (0, 1, 2):
+        r = rng.fork(f"D{down}")
+        o = r.shuffle([0, 1, 2])
+        live = [x for x in o if x != down]
+        scripts.append((f"D{down}-offline-node", [net(unch if (seed + down) % 2 else D.CHAINED, 3, f"d{down}", ph=2400),
+                        D.initial_line(o, 2, live[0], period=30, genesis=-r.range(50, 500), sched=f"down={down}"),
+                        D.reshare_line(r.shuffle(live), [], [], 2, live[0], sched=sched(r, live))]))
     # E: completion placed before / after / across a round boundary (period 1 s)
     r = rng.fork("E")
     o = r.shuffle([0, 1, 2])
@@ -97,17 +98,17 @@ def gen_scripts(ctx, tier):
     if tier == "quick":
         return scripts
     # thorough: all 5 schemes, n up to 6, all thresholds, more schedules, 2-3 epochs
-    for si, sch in enumerate(D.SCHEMES):
+    for rep, si, sch in [(rep, si, sch) for rep in range(3) for si, sch in enumerate(D.SCHEMES)]:
         for n in (2, 3, 4, 5, 6):
             for t in D.thresholds(n):
-                r = rng.fork(f"T{si}{n}{t}")
+                r = rng.fork(f"T{rep}{si}{n}{t}")
                 o = r.shuffle(list(range(n)))
                 lines = [net(sch, n, f"t{si}{n}{t}"), D.initial_line(o, t, r.choice(o), period=r.choice([2, 30]), genesis=-r.range(10, 9000), sched=sched(r, o),
                                                                   subsets=20 if n > 4 else None)]
                 t2 = r.choice(D.thresholds(n))
                 lines.append(D.reshare_line(r.shuffle(o), [], [], t2, r.choice(o), sched=sched(r, o), subsets=20 if n > 4 else None))
-                scripts.append((f"T-{sch}-{n}-{t}", lines))
-    for k in range(6):
+                scripts.append((f"T{rep}-{sch}-{n}-{t}", lines))
+    for k in range(16):
         r = rng.fork(f"X{k}")
         n = r.range(4, 6)
         o = r.shuffle(list(range(n)))
@@ -119,7 +120,7 @@ def gen_scripts(ctx, tier):
                  D.reshare_line(r.shuffle([x for x in o if x != gone]), [], [], r.choice(D.thresholds(n - 1)), first[0],
                                 sched=r.choice(["hold=-900", "hold=250", f"hold=-900/holdx={first[0]}:400"]) if True else None, subsets=20)]
         scripts.append((f"X-replace-{k}", lines))
-    for k in range(4):
+    for k in range(10):
         r = rng.fork(f"Y{k}")
         n = r.range(4, 6)
         o = r.shuffle(list(range(n)))
